@@ -4,7 +4,7 @@
 ID=$1
 SEED=${VERIF_SEED:-0}
 case "$ID" in
-  C01) TARGET=fz_c01; RUNS=${FUZZ_RUNS:-10000}; MAXLEN=2048 ;;
+  C01) TARGET=fz_c01; RUNS=${FUZZ_RUNS:-3000}; MAXLEN=2048 ;;
   C03|C09) TARGET=fz_c03c09; RUNS=${FUZZ_RUNS:-30000}; MAXLEN=512 ;;
   C10) TARGET=fz_c10; RUNS=${FUZZ_RUNS:-30000}; MAXLEN=512 ;;
   C08) TARGET=fz_c08; RUNS=${FUZZ_RUNS:-1500}; MAXLEN=256 ;;
